@@ -120,4 +120,65 @@ theorem d17_repaired : tarWalk true selfLoop 2 0 = .error .linkLoop := by decide
 /-- `fill_dir` (rdsquashfs) refuses the same image -/
 theorem d17_fill_dir_refuses : readTree selfLoop 1 0 = .error .linkLoop := by decide
 
+/-! ### D17b — shared sub-directories are expanded exponentially (recorded finding, no repair) -/
+
+/-- `n` levels; every directory lists the next level's directory twice (hard link to a directory) -/
+def diamond (n : Nat) : DirGraph := ⟨fun r => if r < n then [r + 1, r + 1] else [], fun _ => true, fun r => r.toUInt32⟩
+
+theorem diamond_fill (n : Nat) (hn : n < 2 ^ 32) : ∀ (k r fuel : Nat) (anc : List UInt32),
+    r + k = n → k < fuel → (∀ x ∈ anc, x.toNat ≤ r) →
+    fillDir (diamond n) fuel anc r = .ok (2 ^ (k + 1) - 2) := by
+  intro k
+  induction k with
+  | zero =>
+    intro r fuel anc hr hf _
+    cases fuel with
+    | zero => omega
+    | succ fuel =>
+      have : ¬ r < n := by omega
+      simp [fillDir, diamond, this, sumEntries]
+  | succ k ih =>
+    intro r fuel anc hr hf hanc
+    cases fuel with
+    | zero => omega
+    | succ fuel =>
+      have hlt : r < n := by omega
+      have hnot : anc.contains ((r + 1).toUInt32) = false := by
+        rw [List.contains_eq_mem]
+        simp only [decide_eq_false_iff_not]
+        intro hmem
+        have := hanc _ hmem
+        have e : (r + 1).toUInt32.toNat = r + 1 := by
+          simp [Nat.toUInt32, UInt32.toNat_ofNat']
+          omega
+        omega
+      have hsub := ih (r + 1) fuel ((r + 1).toUInt32 :: anc) (by omega) (by omega) (by
+        intro x hx
+        rcases List.mem_cons.1 hx with rfl | hx
+        · simp [Nat.toUInt32, UInt32.toNat_ofNat']
+          have : (r + 1) % 4294967296 = r + 1 := Nat.mod_eq_of_lt (by omega)
+          omega
+        · have := hanc x hx; omega)
+      unfold fillDir
+      simp only [diamond, hlt, if_true, List.any_cons, List.any_nil, hnot, Bool.or_false, Bool.false_eq_true, if_false]
+      simp only [diamond] at hsub
+      simp only [sumEntries, if_true, hsub]
+      congr 1
+      have : 2 ^ (k + 1) ≥ 2 := by
+        have := Nat.pow_pos (n := k) (show 0 < 2 by decide)
+        rw [Nat.pow_succ]; omega
+      rw [Nat.pow_succ 2 (k + 1)]
+      omega
+
+/-- current and repaired `fill_dir` alike: an image with `n` levels of doubly-listed directories (a few bytes per
+level) is expanded into `2^(n+1) - 2` tree nodes -/
+theorem dag_blowup_exponential (n : Nat) (hn : n < 2 ^ 32) : readTree (diamond n) (n + 1) 0 = .ok (2 ^ (n + 1) - 2) := by
+  unfold readTree
+  apply diamond_fill n hn n 0 (n + 1)
+  · omega
+  · omega
+  · intro x hx
+    simp [diamond] at hx
+    subst hx
+    exact Nat.le_refl _
 end Sqfs.C05.Witness
